@@ -48,11 +48,25 @@
                                 pass or MetainfoError for every value, MetainfoError for every
                                 string with a non-ASCII character.
   * `C08_returned_infohash`     infohash of any torrent: bytes or MetainfoError (hyp. D07f).
+  Round 3 (numbers of any size; `str.strip()` modelled in Model/PyStrip.lean):
+  * `C08_single_numbers`, `C08_multi_numbers`, `C08_single_one_piece`
+                                validate() of a torrent that is well-formed apart from its numbers is
+                                decided by exact integer arithmetic, for all integers at once
+                                (2^53, 2^63, 2^1024, 10^4299 are nothing special).
+  * `C08_file_length_int`, `C08_piece_length_int`, `C08_length_branch`, `C08_length_branch_int`
+                                the two numeric check predicates on integers of any size; the length
+                                rule answers pass or MetainfoError for every value.
+  * `C08_strip_steps`, `C08_strip_decomp`, `C08_strip_ends`, `C08_magnet_documented_strip`
+                                `uri.strip()` as CPython's two scanning loops: at most |s| + 2
+                                iterations wherever the white space sits; what it returns; from_string
+                                with it.
   * `C08_read_steps`            steps of the decoder ≤ 3·|bs| + 2.
   Partial: CPython's actual time and memory are measured by the harness, not proved.
 -/
 import Torf.Lemmas.Untrusted
 import Torf.Lemmas.QueryString
+import Torf.Lemmas.PyStrip
+import Torf.Lemmas.ValidateSingle
 import Torf.Properties.C07
 namespace Torf.C08
 open Torf Torf.Bencode Torf.Untrusted
@@ -499,6 +513,169 @@ theorem C08_returned_infohash (env : Env) (t : Items)
       simp [Validate.outsideD07f, hf, Validate.noPath]
     have := C07.C07_only_metainfo_error_infohash_partial env.urlOk Validate.noPath t e ho h
     subst this; rfl
+
+/-! ### round 3: numbers of any size in the numeric fields; `strip()` modelled with its step count -/
+
+/-- `is_file_length` on an `int`: `num >= 0`, for **every** integer — no float conversion, no range. -/
+theorem C08_file_length_int (n : Int) : Validate.isFileLength (.int n) = decide (0 ≤ n) := rfl
+
+/-- `is_divisible_by_16_kib` on an `int`: positive multiple of 16384, for every integer. -/
+theorem C08_piece_length_int (n : Int) :
+    Validate.isDivisibleBy16KiB (.int n) = (decide (0 < n) && decide (n % 16384 = 0)) := by
+  unfold Validate.isDivisibleBy16KiB
+  simp only [Validate.intVal]
+  by_cases h : n ≤ 0
+  · have : ¬ 0 < n := by omega
+    simp [h, this]
+  · have : 0 < n := by omega
+    by_cases hm : n % 16384 = 0 <;> simp [h, this, hm]
+
+/-- the rule `validate()` applies to `info.length` and `info.files[i].length` -/
+def lengthRule : Validate.Rule := { types := Validate.isIntOrFloat, check := some Validate.isFileLength }
+
+/-- the length branch of `validate()` answers "passes" or MetainfoError for every value … -/
+theorem C08_length_branch (v : PyVal) :
+    Validate.checkVal lengthRule v = .ok () ∨ Validate.checkVal lengthRule v = .error .metainfo := by
+  unfold Validate.checkVal
+  split
+  · left; rfl
+  · right; rfl
+
+/-- … and "passes" for every non-negative integer, however large (2^1024, 10^4299, …) -/
+theorem C08_length_branch_int (n : Int) (h : 0 ≤ n) : Validate.checkVal lengthRule (.int n) = .ok () := by
+  simp [Validate.checkVal, Validate.passes, lengthRule, Validate.isIntOrFloat, PyVal.isInt, C08_file_length_int, h]
+  rfl
+
+/-- a single-file torrent that is well-formed apart from its three numbers: `length`, `piece length`
+    and the number `k` of 20-byte piece hashes -/
+def singleTmpl (len pl : Int) (k : Nat) : Validate.Items :=
+  [(.str "info", .dict [(.str "length", .int len), (.str "name", .str "a"), (.str "piece length", .int pl),
+                        (.str "pieces", .bytes (List.replicate (20 * k) 1))])]
+
+/-- a multi-file torrent with two files of lengths `a` and `b` -/
+def multiTmpl (a b pl : Int) (k : Nat) : Validate.Items :=
+  [(.str "info", .dict [(.str "files", .list [.dict [(.str "length", .int a), (.str "path", .list [.str "x"])],
+                                               .dict [(.str "length", .int b), (.str "path", .list [.str "y"])]]),
+      (.str "name", .str "a"), (.str "piece length", .int pl), (.str "pieces", .bytes (List.replicate (20 * k) 1))])]
+
+/-- **The number ladder, for all integers at once**: `validate()` of the single-file template is
+    decided by exact integer arithmetic — ok iff the piece length is a positive multiple of 16384,
+    there is at least one piece, the length is non-negative and the piece count is the ceiling of
+    length / piece length — and MetainfoError otherwise; no magnitude (2^53, 2^63, 2^1024, 10^4299)
+    plays any role. -/
+theorem C08_single_numbers (urlOk : Export.Bytes → Bool) (len pl : Int) (k : Nat) :
+    Validate.validate urlOk Validate.noPath (singleTmpl len pl k) =
+      if 0 < pl ∧ pl % 16384 = 0 ∧ 0 < k ∧ 0 ≤ len ∧ (k : Int) = Validate.expPieces len pl then .ok ()
+      else .error .metainfo := by
+  open Validate in
+  simp [Validate.validate, singleTmpl, ensureInfo, PyVal.lookupStr, getE, getItem, lookupKey, checkCommon, assertType,
+    assertFinal, keyExists, checkVal, passes, bind, Except.bind, pure, Except.pure, checkAnnounceList, lenE, pyLen, inE,
+    checkSingle, noPath, isStrOrBytes, PyVal.isDict, PyVal.isStr, PyVal.isBytes, PyVal.isInt, isIntOrFloat, PyVal.isFloat,
+    isFileLength, isDivisibleBy16KiB, intVal, numVal?]
+  by_cases h1 : pl ≤ 0
+  · have : ¬ 0 < pl := by omega
+    simp [h1, this, throw, throwThe, MonadExceptOf.throw]
+  · have h1' : 0 < pl := by omega
+    by_cases h2 : pl % 16384 = 0
+    · by_cases h3 : k = 0
+      · simp [h1, h1', h2, h3, throw, throwThe, MonadExceptOf.throw]
+      · have h3' : 0 < k := by omega
+        have h6 : ¬ 20 * k = 0 := by omega
+        by_cases h4 : 0 ≤ len
+        · by_cases h5 : (k : Int) = Validate.expPieces len pl
+          · simp [h1, h1', h2, h3', h6, h4, h5]
+          · simp [h1, h1', h2, h3', h6, h4, h5, throw, throwThe, MonadExceptOf.throw]
+        · simp [h1, h1', h2, h3', h6, h4, throw, throwThe, MonadExceptOf.throw]
+    · simp [h1, h1', h2, throw, throwThe, MonadExceptOf.throw]
+
+/-- the same for two files: only the exact **sum** of the lengths matters (pairs whose sum crosses
+    2^53, 2^63, 2^1024 or the 4300-digit limit are nothing special) -/
+theorem C08_multi_numbers (urlOk : Export.Bytes → Bool) (a b pl : Int) (k : Nat) :
+    Validate.validate urlOk Validate.noPath (multiTmpl a b pl k) =
+      if 0 < pl ∧ pl % 16384 = 0 ∧ 0 < k ∧ 0 ≤ a ∧ 0 ≤ b ∧ (k : Int) = Validate.expPieces (a + b) pl then .ok ()
+      else .error .metainfo := by
+  open Validate in
+  simp [Validate.validate, multiTmpl, ensureInfo, PyVal.lookupStr, getE, getItem, lookupKey, checkCommon, assertType,
+    assertFinal, keyExists, checkVal, passes, bind, Except.bind, pure, Except.pure, checkAnnounceList, lenE, pyLen, inE,
+    checkMulti, noPath, isStrOrBytes, PyVal.isDict, PyVal.isStr, PyVal.isBytes, PyVal.isInt, isIntOrFloat, PyVal.isFloat,
+    isFileLength, isDivisibleBy16KiB, intVal, numVal?, PyVal.isIterable, iterE, pyIter, forEnum, checkFile, sumLengths,
+    List.range, List.range.loop]
+  by_cases h1 : pl ≤ 0
+  · have : ¬ 0 < pl := by omega
+    simp [h1, this, throw, throwThe, MonadExceptOf.throw]
+  · have h1' : 0 < pl := by omega
+    by_cases h2 : pl % 16384 = 0
+    · by_cases h3 : k = 0
+      · simp [h1, h1', h2, h3, throw, throwThe, MonadExceptOf.throw]
+      · have h3' : 0 < k := by omega
+        have h6 : ¬ 20 * k = 0 := by omega
+        by_cases h4 : 0 ≤ a
+        · by_cases h4b : 0 ≤ b
+          · by_cases h5 : (k : Int) = Validate.expPieces (a + b) pl
+            · simp [h1, h1', h2, h3', h6, h4, h4b, h5]
+            · simp [h1, h1', h2, h3', h6, h4, h4b, h5, throw, throwThe, MonadExceptOf.throw]
+          · simp [h1, h1', h2, h3', h6, h4, h4b, throw, throwThe, MonadExceptOf.throw]
+        · simp [h1, h1', h2, h3', h6, h4, throw, throwThe, MonadExceptOf.throw]
+    · simp [h1, h1', h2, throw, throwThe, MonadExceptOf.throw]
+
+/-- a torrent whose only file is as large as the piece (`piece length` = a positive multiple of 16384
+    ≥ `length` ≥ 1) validates — beyond the float range too: the seeded input `length = 2^1024` is
+    *valid* with a fitting piece length, and MetainfoError with `piece length = 16384` -/
+theorem C08_single_one_piece (urlOk : Export.Bytes → Bool) (len pl : Int)
+    (hl : 1 ≤ len) (hp : len ≤ pl) (hm : pl % 16384 = 0) :
+    Validate.validate urlOk Validate.noPath (singleTmpl len pl 1) = .ok () := by
+  rw [C08_single_numbers, if_pos]
+  refine ⟨by omega, hm, by omega, by omega, ?_⟩
+  rw [Validate.expPieces_eq (by omega) (by omega)]
+  have : (len.toNat + pl.toNat - 1) / pl.toNat = 1 := by
+    apply Nat.div_eq_of_lt_le <;> omega
+  rw [this]
+
+example : Validate.validate (fun _ => false) Validate.noPath (singleTmpl (2 ^ 1024) (16384 * 2 ^ 1020) 1) = .ok () :=
+  C08_single_one_piece _ _ _ (by decide +kernel) (by decide +kernel) (by decide +kernel)
+
+example : Validate.validate (fun _ => false) Validate.noPath (singleTmpl (2 ^ 1024) 16384 1) = .error .metainfo := by
+  rw [C08_single_numbers, if_neg]
+  intro ⟨_, _, _, _, h⟩
+  revert h
+  decide +kernel
+
+/-- `uri.strip()`: white space, the stripped string, white space — … -/
+theorem C08_strip_decomp (s : List Char) :
+    ∃ w₁ w₂, (∀ c ∈ w₁, isPySpace c = true) ∧ (∀ c ∈ w₂, isPySpace c = true) ∧ s = w₁ ++ pyStrip s ++ w₂ := by
+  obtain ⟨w₁, h₁, e₁⟩ := lstrip_decomp s
+  obtain ⟨w₂, h₂, e₂⟩ := lstrip_decomp (lstrip s).reverse
+  refine ⟨w₁, w₂.reverse, h₁, fun c hc => h₂ c (List.mem_reverse.1 hc), ?_⟩
+  have : lstrip s = pyStrip s ++ w₂.reverse := by
+    unfold pyStrip
+    rw [← List.reverse_append, ← e₂, List.reverse_reverse]
+  rw [List.append_assoc, ← this]; exact e₁
+
+/-- … with no white space left at either end -/
+theorem C08_strip_ends (s : List Char) (c : Char) :
+    ((pyStrip s).head? = some c → isPySpace c = false) ∧ ((pyStrip s).getLast? = some c → isPySpace c = false) := by
+  unfold pyStrip
+  constructor
+  · intro h
+    rw [List.head?_reverse] at h
+    have h' := lstrip_getLast _ c h
+    rw [List.getLast?_reverse] at h'
+    exact lstrip_head s c h'
+  · intro h
+    rw [List.getLast?_reverse] at h
+    exact lstrip_head _ c h
+
+/-- **`strip()` is linear**: the two scanning loops of CPython's `do_strip` make at most |s| + 2
+    iterations together, wherever the white space sits (start, middle, end) and whatever it is. -/
+theorem C08_strip_steps (s : List Char) : stripSteps s ≤ s.length + 2 :=
+  stripSteps_le s
+
+/-- `from_string` with `strip()` and `parse_qs` modelled: a magnet, MagnetError or URLError for every
+    string (`C08_magnet_documented` on the stripped string). -/
+theorem C08_magnet_documented_strip (o : MagnetOracle) (pct : String → String) (uri : String) :
+    (∃ m, fromStringS o pct {} uri = .ok m) ∨ fromStringS o pct {} uri = .error .magnet ∨
+    fromStringS o pct {} uri = .error .url :=
+  C08_magnet_documented o pct _
 
 /-- The decoder is linear: one unit per input byte, per iteration of the outer loop and per
     iteration of the inner pop loop add up to at most 3·|bs| + 2. -/
